@@ -25,6 +25,7 @@ BASE = {
         "weights": {"set_initial": 9, "set_value": 0.5, "subject_to": 0.3, "clear_constraints": 0.1, "add_objective": 0.3, "solver": 0.2,
                     "set_T": 0.3, "set_t0": 0.2, "late_sym": 0.1, "reject": 0.2, "save": 0.7, "load": 0.7, "method": 2},
         "p_base_guess": 0.5,
+        "p_zero_guess": 0.15,
         "p_real": 0.1,
     },
     "C18": {
